@@ -248,7 +248,9 @@ class ClientModel:
                       for s in self.slots),
                 self.goaway, self.small_window, tuple(sorted(self.tags)), self.npre)
 
-    def enabled(self, kinds: Tuple[str, ...]) -> List[tuple]:
+    def enabled(self, kinds: Tuple[str, ...], core: bool = False) -> List[tuple]:
+        """Operations a client may send next; `core` leaves out the near-duplicates (padded DATA, unknown frame on
+        a stream, window size 1) so that the search can go one level deeper."""
         if self.goaway:
             return []
         ops: List[tuple] = []
@@ -256,13 +258,17 @@ class ClientModel:
             ops += [("H", k) for k in kinds]
         for i, s in enumerate(self.slots):
             if s["open"]:
-                ops += [("D", i, 0, 0), ("D", i, 1, 0), ("D", i, 0, 2), ("T", i)]
+                ops += [("D", i, 0, 0), ("D", i, 1, 0), ("T", i)]
+                if not core:
+                    ops.append(("D", i, 0, 2))
             if not s["reset"]:
                 ops.append(("R", i))
             ops.append(("W", i + 1))
-            ops.append(("U", i + 1))
-        ops += [("W", 0), ("U", 0), ("P", "pre"), ("P", "self"), ("S", 0), ("S", 1), ("S", 1 << 20), ("PING",),
-                ("G",)]
+            if not core:
+                ops.append(("U", i + 1))
+        ops += [("W", 0), ("U", 0), ("P", "pre"), ("P", "self"), ("S", 0), ("S", 1 << 20), ("PING",), ("G",)]
+        if not core:
+            ops.append(("S", 1))
         if self.slots:
             ops.append(("P", "dep"))
         if any(s["kind"] == "gated" and not s["released"] for s in self.slots):
@@ -345,21 +351,27 @@ def grammar_events(history: List[tuple]) -> Tuple[List[tuple], ClientModel, List
     return events, model, chunks
 
 
-def grammar_kinds(tier: str) -> Tuple[str, ...]:
-    if tier == "thorough":
+def grammar_kinds(alphabet: str) -> Tuple[str, ...]:
+    """HEADERS shapes of the three alphabets: 'full' (12), 'quick' (10), 'core' (9)."""
+    if alphabet == "full":
         return tuple(HKINDS)
+    if alphabet == "core":
+        return tuple(k for k in HKINDS if k not in ("nonascii_ws", "padded", "prio"))
     return tuple(k for k in HKINDS if k not in ("nonascii_ws", "padded"))
 
 
-def grammar_roots(tier: str, nroot: int) -> List[List[tuple]]:
+def grammar_enabled(model: ClientModel, alphabet: str) -> List[tuple]:
+    return model.enabled(grammar_kinds(alphabet), core=alphabet == "core")
+
+
+def grammar_roots(alphabet: str, nroot: int) -> List[List[tuple]]:
     """All client-legal histories of length nroot (by the pure model)."""
-    kinds = grammar_kinds(tier)
     roots: List[List[tuple]] = [[]]
     for _ in range(nroot):
         nxt = []
         for h in roots:
             _, model, _ = grammar_events(h)
-            for op in model.enabled(kinds):
+            for op in grammar_enabled(model, alphabet):
                 nxt.append(h + [op])
         roots = nxt
     return roots
